@@ -164,6 +164,8 @@ fn path_last_ident(p: &syn::Path) -> Option<String> {
     p.segments.last().map(|s| s.ident.to_string())
 }
 
+thread_local! { static CUR_SRC: std::cell::RefCell<String> = std::cell::RefCell::new(String::new()); }
+
 fn start_after_attrs(attrs: &[syn::Attribute], whole: Span) -> (usize, usize) {
     let (mut s, e) = rng(whole);
     for a in attrs {
@@ -172,6 +174,14 @@ fn start_after_attrs(attrs: &[syn::Attribute], whole: Span) -> (usize, usize) {
             s = ae;
         }
     }
+    // skip the whitespace between the last attribute / doc comment and the item itself
+    CUR_SRC.with(|c| {
+        let src = c.borrow();
+        let b = src.as_bytes();
+        while s < e && s < b.len() && (b[s] as char).is_whitespace() {
+            s += 1;
+        }
+    });
     (s, e)
 }
 
@@ -757,6 +767,7 @@ fn do_extract(repo: &str, ex: &Extract, probes: bool, probe_ctr: &mut usize) -> 
     let path = format!("{}/{}", repo.trim_end_matches('/'), file);
     let src = std::fs::read_to_string(&path).map_err(|e| Fail(format!("cannot read {path}: {e}")))?;
     let ast = syn::parse_file(&src).map_err(|e| Fail(format!("cannot parse {path}: {e}")))?;
+    CUR_SRC.with(|c| *c.borrow_mut() = src.clone());
     let segs: Vec<&str> = item.split("::").collect();
     let mut nth: usize = ex.kv.get("nth").and_then(|s| s.parse().ok()).unwrap_or(0);
     let found = locate_in_items(&ast.items, &segs, &mut nth).ok_or(Fail(format!("anchor not found: {file} :: {item}")))?;
@@ -845,6 +856,18 @@ fn do_extract(repo: &str, ex: &Extract, probes: bool, probe_ctr: &mut usize) -> 
 
 fn run() -> Result<(), Fail> {
     let args: Vec<String> = std::env::args().collect();
+    if args.len() >= 4 && args[1] == "locate" {
+        // vx locate <file> <item path>  -> {"start":byte,"end":byte,"line":n,"end_line":n}
+        let src = std::fs::read_to_string(&args[2]).map_err(|e| Fail(format!("cannot read {}: {e}", args[2])))?;
+        let ast = syn::parse_file(&src).map_err(|e| Fail(format!("cannot parse {}: {e}", args[2])))?;
+        CUR_SRC.with(|c| *c.borrow_mut() = src.clone());
+        let segs: Vec<&str> = args[3].split("::").collect();
+        let mut nth = 0usize;
+        let found = locate_in_items(&ast.items, &segs, &mut nth).ok_or(Fail(format!("anchor not found: {} :: {}", args[2], args[3])))?;
+        let Found::Text { start, end, kind } = found;
+        println!("{}", json!({"start": start, "end": end, "line": line_of(&src, start), "end_line": line_of(&src, end), "kind": kind, "sha256": sha256_hex(src[start..end].as_bytes())}));
+        return Ok(());
+    }
     if args.len() < 2 || args[1] != "gen" {
         return fail("usage: vx gen --repo R --template T --out O --map M [--probes]");
     }
